@@ -110,6 +110,7 @@ def nontrivial(prop, res):
     return False
 
 
+SESSION_WIDTH = 80          # GlobalConfiguration's default width, which the worker sessions use
 MAX_NESTING = 25
 
 
@@ -307,6 +308,16 @@ def run(chk, tier, prop):
                 chk.violation("control-char-in-session-output",
                               "C17_append_only / C17_charset_framework: the session's console output contains %r (…%r…)" % (badc, i[4][max(0, pos - 30):pos + 10]),
                               dict(kind="screen", prop=prop, case=c, output_excerpt=i[4][max(0, pos - 200):pos + 50]), found=True)
+                nbad += 1
+                continue
+            # ... and what the framework hands to getpass for a hidden input is wrapped like every other prompt: no line of it,
+            # ignoring trailing blanks, is longer than the configured width (C17_width_prompt)
+            long_ = [l for p_ in (i[5] if len(i) > 5 else []) for l in p_.split("\n") if len(l.rstrip()) > SESSION_WIDTH]
+            if long_:
+                chk.violation("line-wider-than-width",
+                              "C17_width_prompt: the prompt of a hidden input has a line of %d characters (width %d): %r"
+                              % (len(long_[0].rstrip()), SESSION_WIDTH, long_[0][:120]),
+                              dict(kind="screen", prop=prop, case=c, line=long_[0]), found=True)
                 nbad += 1
                 continue
         if m is None:
